@@ -66,3 +66,8 @@ func VerifResourceIdC08(obj *unstructured.Unstructured) string { return resource
 func (v *VerifInformerC08) OnDeleteTombstone(key string, obj *unstructured.Unstructured) {
 	v.ei.OnDelete(cache.DeletedFinalStateUnknown{Key: key, Obj: obj})
 }
+
+// OnAddInitial delivers an Added the way client-go does for the objects of the list the shared
+// informer made on start (or of the store replay for a handler added to a running informer):
+// isInInitialList = true.
+func (v *VerifInformerC08) OnAddInitial(obj *unstructured.Unstructured) { v.ei.OnAdd(obj, true) }
